@@ -69,6 +69,15 @@ Theorem c11_parse_last_duplicate_wins : forall s b, parse s = Some b -> s <> [] 
 Proof. exact parse_last_wins. Qed.
 Print Assumptions c11_parse_last_duplicate_wins.
 
+(** Parse accepts every non-empty header of at most 8192 bytes whose list-members each parse and resolve
+    (duplicates: the last one wins) to at most 180 members - however many list-members there are. *)
+Theorem c11_parse_complete : forall s ms,
+  s <> [] -> map parse_member (split COMMA s) = map Some ms ->
+  lenN s <= MAX_BYTES_PER_BAGGAGE -> lenN (fold_left bag_set ms []) <= MAX_MEMBERS ->
+  parse s = Some (fold_left bag_set ms []).
+Proof. exact parse_complete. Qed.
+Print Assumptions c11_parse_complete.
+
 (** Limits respected by every successful parse. *)
 Theorem c11_parse_limits : forall s b, parse s = Some b ->
   header_within_limits s = true /\ blen b <= LIMIT_MEMBERS.
